@@ -103,11 +103,11 @@ type Obs15 struct {
 	Chart  Chart15 `json:"chart"`
 	GenErr string  `json:"genErr"` // the generated files are not a chart LoadFiles accepts (harness problem, not a verdict)
 
-	SaveLoad OpObs `json:"saveload"` // Load(Save(c)) vs c
-	SaveDir  OpObs `json:"savedir"`  // LoadDir(SaveDir(c)) vs c
-	DirArch  OpObs `json:"dirarch"`  // LoadDir(d) vs LoadArchive(tar(d))
-	Package  OpObs `json:"package"`  // Load(Package(d)) vs LoadDir(d)
-	PkgHas   []string `json:"pkgHas"` // path classes of the case's files present in the packaged archive
+	SaveLoad OpObs    `json:"saveload"` // Load(Save(c)) vs c
+	SaveDir  OpObs    `json:"savedir"`  // LoadDir(SaveDir(c)) vs c
+	DirArch  OpObs    `json:"dirarch"`  // LoadDir(d) vs LoadArchive(tar(d))
+	Package  OpObs    `json:"package"`  // Load(Package(d)) vs LoadDir(d)
+	PkgHas   []string `json:"pkgHas"`   // path classes of the case's files present in the packaged archive
 
 	// invalid name / version
 	Name        string `json:"name"`
